@@ -31,6 +31,12 @@ def run(tier):
                           bounds='3 apps x 0-2 evolutions x applied prefix 0..n x 4 dependency kinds x 2 levels x source/target app and label x 2 registration orders',
                           functions=['utils/graph.py EvolutionGraph.add_evolutions, mark_evolutions_applied, iter_batches, _add_evolution*, DependencyGraph.*',
                                      'utils/evolutions.py get_evolution_dependencies, get_evolution_app_dependencies, get_evolution_module(s)']))
+    obs.append(Obligation('graph_models', 'harness/c09.py', 'h_graph_models', timeout=600,
+                          partitions=[[k, a, b] for k in range(5) for a in range(3) for b in range(3) if a != b and (k or (a == 0 and b == 1))],
+                          twin_partition=[2, 0, 1],
+                          what='EvolutionGraph with apps that have models to create (with or without pending evolutions): every pending unit exactly once, create-model before the app\'s evolutions, an app-level AFTER_/BEFORE_EVOLUTIONS declaration binds all units of the declaring app (also when only a model creation is pending), both registration orders, already-applied evolutions',
+                          bounds='3 apps x 0-1 evolutions x applied or not x new model or not x 5 declaration kinds (app level) x all ordered app pairs x 2 registration orders',
+                          functions=['utils/graph.py EvolutionGraph.add_evolutions, _add_create_model, _add_evolution_node_after_deps/_before_deps, mark_evolutions_applied, iter_batches']))
     obs.append(Obligation('evolution_deps', 'harness/c09.py', 'h_evolution_deps', timeout=400,
                           what='get_evolution_dependencies returns the union of the declared AFTER/BEFORE_EVOLUTIONS/MIGRATIONS of an evolution (module attributes or custom-evolution entry) and the dependencies its mutations generate (MoveToDjangoMigrations)',
                           bounds='all 2^4 combinations of declared lists x {no, default, two-migration} MoveToDjangoMigrations x {module, custom evolution}',
